@@ -326,7 +326,7 @@ def _subst_calls(e, val):
     return out
 
 
-def trace_calls(P, fn, env0, max_steps=20000, _depth=0, assume_calls=None, partial=False):
+def trace_calls(P, fn, env0, max_steps=20000, _depth=0, assume_calls=None, partial=False, _retbox=None, sym_out=None, on_store=None):
     """Finite-domain evaluation of the control skeleton of fn for ONE element of
     the finite input domain (env0 binds the enumerated parameters, e.g. a
     concrete length and address): values that cannot be evaluated become
@@ -335,7 +335,8 @@ def trace_calls(P, fn, env0, max_steps=20000, _depth=0, assume_calls=None, parti
     an int, ('deref', address), ('addr', local name) or None."""
     fd = FD(P)
     env = dict(env0)
-    sym = {}     # pointer locals holding an address that is only known symbolically: name -> ('off', base, k)
+    sym = {}     # pointer locals holding an address that is only known symbolically: name -> ('off', base, k) | ('addr', name)
+    callret = {}  # call expression id -> value returned by an inlined helper
     out = []
     b = fn.entry
     steps = 0
@@ -397,12 +398,26 @@ def trace_calls(P, fn, env0, max_steps=20000, _depth=0, assume_calls=None, parti
                     env[ev.name] = wrap(fd.ev(fn, ev.e, env), ev.t)
                 except (Top, ZeroDivisionError):
                     env.pop(ev.name, None)
-                    # the success skeleton: results of calls are taken as `assume_calls` when asked to
-                    if assume_calls is not None and ev.e is not None and strip_casts(ev.e).get('op') == 'call':
-                        env[ev.name] = assume_calls
+                    sym.pop(ev.name, None)
+                    e0_ = strip_casts(ev.e) if ev.e is not None else None
+                    if e0_ is not None and e0_.get('op') == 'call' and e0_.get('id') in callret:
+                        rv_ = callret[e0_['id']]
+                        if isinstance(rv_, int):
+                            env[ev.name] = rv_
+                        elif isinstance(rv_, tuple):
+                            sym[ev.name] = rv_
+                    elif e0_ is not None and ev.e is not None:
+                        d_ = arg_desc(ev.e)
+                        if isinstance(d_, tuple) and d_[0] in ('off', 'addr'):
+                            sym[ev.name] = d_
+                        # the success skeleton: results of calls are taken as `assume_calls` when asked to
+                        elif assume_calls is not None and e0_.get('op') == 'call':
+                            env[ev.name] = assume_calls
             elif ev.k == 'store':
                 lhs, rhs, o = ev.store_parts()
                 l0 = strip_casts(lhs)
+                if on_store is not None:
+                    on_store(ev, env, sym)
                 if l0.get('op') != 'ref':
                     continue
                 name = l0['name']
@@ -419,8 +434,14 @@ def trace_calls(P, fn, env0, max_steps=20000, _depth=0, assume_calls=None, parti
                     sym.pop(name, None)
                     if rhs is not None and o == '=':
                         d_ = arg_desc(rhs)
-                        if isinstance(d_, tuple) and d_[0] == 'off':
+                        if isinstance(d_, tuple) and d_[0] in ('off', 'addr'):
                             sym[name] = d_
+                        elif rhs is not None and strip_casts(rhs).get('op') == 'call' and strip_casts(rhs).get('id') in callret:
+                            rv_ = callret[strip_casts(rhs)['id']]
+                            if isinstance(rv_, int):
+                                env[name] = rv_
+                            elif isinstance(rv_, tuple):
+                                sym[name] = rv_
             elif ev.k == 'call':
                 g = P.functions.get(ev.callee) if P is not None else None
                 if g is not None and g.file == fn.file and g is not fn and _depth < 3:
@@ -432,7 +453,10 @@ def trace_calls(P, fn, env0, max_steps=20000, _depth=0, assume_calls=None, parti
                                 sub_env[g.params[i_]['name']] = fd.ev(fn, strip_casts(a), env)
                             except (Top, ZeroDivisionError, KeyError):
                                 pass
-                    out.extend(trace_calls(P, g, sub_env, max_steps, _depth + 1, assume_calls))
+                    box = []
+                    out.extend(trace_calls(P, g, sub_env, max_steps, _depth + 1, assume_calls, False, box))
+                    if box:
+                        callret[ev.e.get('id')] = box[0]
                     continue
                 out.append((ev.callee, [arg_desc(a) for a in ev.args], ev))
                 for a in ev.args:
@@ -442,14 +466,25 @@ def trace_calls(P, fn, env0, max_steps=20000, _depth=0, assume_calls=None, parti
                         if inner.get('op') == 'ref':
                             env.pop(inner['name'], None)
             elif ev.k == 'ret':
+                if _retbox is not None and ev.e is not None:
+                    _retbox.append(arg_desc(ev.e))
+                if sym_out is not None:
+                    sym_out.update({k_: v_ for k_, v_ in env.items() if isinstance(k_, str)})
+                    sym_out.update(sym)
                 return out
         if not b.succs:
+            if sym_out is not None:
+                sym_out.update({k_: v_ for k_, v_ in env.items() if isinstance(k_, str)})
+                sym_out.update(sym)
             return out
         if len(b.succs) == 1:
             b = b.succs[0][0]
             continue
         try:
             try:
+                for k_, v_ in sym.items():
+                    if v_[0] == 'addr' and k_ not in env:
+                        env[k_] = 0x70000000      # the address of an object: not NULL
                 c = fd.ev(fn, b.cond, env)      # Top propagates: the skeleton is not decidable for this input
             except Top:
                 if assume_calls is None:
@@ -464,6 +499,15 @@ def trace_calls(P, fn, env0, max_steps=20000, _depth=0, assume_calls=None, parti
         for s, label in b.succs:
             if (label == 'T' and c) or (label == 'F' and not c):
                 nxt = s
+        if nxt is None and any(isinstance(l_, tuple) for _, l_ in b.succs):
+            # switch: the arm whose case list holds the value, else the default arm
+            for s, label in b.succs:
+                if isinstance(label, tuple) and label[0] == 'case' and c in label[1]:
+                    nxt = s
+            if nxt is None:
+                for s, label in b.succs:
+                    if isinstance(label, tuple) and (label[0] == 'default' or (label[0] == 'case' and len(label) > 2 and label[2])):
+                        nxt = s
         if nxt is None:
             raise Top()
         b = nxt
